@@ -161,16 +161,16 @@ impl<Args> RepeatTask<Args> {
     }
   }
 
-  /// Like `new`, but the first run happens as soon as the task is polled
-  /// (i.e. right after the delay it was scheduled with); only the later runs
-  /// wait for `dur`.
-  pub fn new_immediate(
+  /// Like `new`, but the first run happens `first` after the task was
+  /// created; only the later runs wait for `dur`.
+  pub fn with_first_delay(
+    first: Duration,
     dur: Duration,
     task: fn(&mut Args, usize) -> bool,
     args: Args,
   ) -> Self {
     Self {
-      fur: Box::pin(futures::future::ready(())),
+      fur: new_timer(first),
       interval: dur,
       task,
       args,
